@@ -1,2 +1,128 @@
--- driver stub for C08 (replaced when the model is built)
-def main : IO Unit := pure ()
+import PyramidModel.Prelude
+import PyramidModel.ConfigFootprints
+import PyramidModel.Gen.C08Phases
+/-! Driver for C08: one JSON case per line.
+in : {"actions":[{"id":n,"kind":"addView","disc":null|n,"args":[["viewSlot",k],…],"vorder":null|n},…],
+      "variants":[{"order":[ids in declaration order],"paths":[[n,…] include path per position]},…]}
+out: {"table_ok":bool,
+      "phases":[phase of the kind in Gen/C08Phases.lean | null, per action],
+      "footprints":[{"id","reads":[[fam,key]…],"writes":[[fam,key]…],"disc_reads":[fam…],"creates":[fam…]}],
+      "variants":[{"out":"ok"|"conflict"|"regress"|"fuel","exec":[ids in execution order]}],
+      "equal":bool      — the final stores of all variants under the FREE semantics (`herbrand`; view registrations
+                          with a known predicate order: `viewFp` = multiview merge + free term of the rest) agree on every slot,
+      "hyp":[bool]      — per variant: every same-phase pair declared in the opposite order than in variant 0 has
+                          independent declared footprints or is a pair of view registrations with different predicate
+                          order (hypothesis `hkeep` of `program_order_irrelevant`),
+      "sensitive_swapped":[[[a,b]…]] — per variant: the swapped same-phase pairs of declared order-sensitive kinds
+                          that share a slot}
+The model execution is C04's `Actions.run` on the actions with the TABLE's phases. -/
+open Pyr Pyr.Actions Pyr.ConfigOrder Lean
+
+structure AIn where
+  id : Nat
+  kind : Kind
+  disc : Option Nat
+  args : List Slot
+  /-- predicate `order` of a view registration (`view_intr['order']`, data from the real `PredicateList.make`) -/
+  vorder : Option Nat
+
+def parseSlot (j : Json) : Except String Slot := do
+  match j with
+  | .arr xs =>
+    if h : xs.size = 2 then
+      let f : String ← fromJson? xs[0]
+      let k : Nat ← fromJson? xs[1]
+      match Fam.ofName f with
+      | some fam => pure ⟨fam, k⟩
+      | none => throw s!"unknown family {f}"
+    else throw "bad slot"
+  | _ => throw "bad slot"
+
+def parseAction (j : Json) : Except String AIn := do
+  let id : Nat ← getAs j "id"
+  let kind : String ← getAs j "kind"
+  let disc : Option Nat ← getAs j "disc"
+  let aj ← getField j "args"
+  let args ← match aj with
+    | .arr xs => xs.toList.mapM parseSlot
+    | _ => throw "bad args"
+  let vorder : Option Nat := (j.getObjValAs? (Option Nat) "vorder").toOption.getD none
+  pure ⟨id, Kind.ofName kind, disc, args, vorder⟩
+
+def rowOfKind (k : Kind) : Option Row := Gen.rows.find? (fun r => r.kind == k)
+
+def slotJson (x : Slot) : Json := Json.arr #[Json.str x.fam.name, toJson x.key]
+
+def outName : Outcome → String
+  | .ok => "ok" | .conflict _ => "conflict" | .regress _ _ => "regress" | .fuel => "fuel"
+
+def findA (as : List AIn) (i : Nat) : Option AIn := as.find? (fun a => a.id == i)
+
+def fpOf (as : List AIn) (i : Nat) : Footprint :=
+  match findA as i with
+  | some a =>
+    match a.kind, a.vorder with
+    | .addView, some o => viewFp i o (instReads a.kind a.disc a.args) (instWrites a.kind a.disc a.args)
+    | _, _ => herbrand i (instReads a.kind a.disc a.args) (instWrites a.kind a.disc a.args)
+  | none => herbrand i [] []
+
+/-- the pair may be swapped: independent footprints, or two view registrations with different predicate order
+(`viewReg_commutes`: the merged lists agree; everything else they touch is read-only for both) -/
+def pairFree (env : Env) (a b : AIn) : Bool :=
+  indepB (env a.id) (env b.id) ||
+  (match a.kind, b.kind, a.vorder, b.vorder with
+   | .addView, .addView, some o1, some o2 => o1 != o2
+   | _, _, _, _ => false)
+
+def phaseOfA (a : AIn) : Option Int := (rowOfKind a.kind).bind (·.phase)
+
+/-- position of `i` in `l` -/
+def posOf (l : List Nat) (i : Nat) : Nat := (l.findIdx? (· == i)).getD l.length
+
+def main : IO Unit := jsonDriver fun j => do
+  let aj ← getField j "actions"
+  let as ← match aj with
+    | .arr xs => xs.toList.mapM parseAction
+    | _ => throw "bad actions"
+  let vj ← getField j "variants"
+  let vs : List (List Nat × List (List Nat)) ← match vj with
+    | .arr xs => xs.toList.mapM fun v => do
+        let o : List Nat ← getAs v "order"
+        let p : List (List Nat) ← getAs v "paths"
+        pure (o, p)
+    | _ => throw "bad variants"
+  let env : Env := fpOf as
+  let touched : List Slot := (as.flatMap fun a => (env a.id).reads ++ (env a.id).writes).eraseDups
+  let runV := fun (v : List Nat × List (List Nat)) =>
+    let acts : List Act := (v.1.zip v.2).filterMap fun (i, p) =>
+      (findA as i).map fun a => ⟨i, Disc.ofOption a.disc, (phaseOfA a).getD 0, p⟩
+    let r := Actions.run noKids (acts.length + 1) acts
+    let st := runIds env r.2 (fun _ => [])
+    (r.1, r.2, touched.map st)
+  let results := vs.map runV
+  let equal := match results with
+    | [] => true
+    | r0 :: rest => rest.all fun r => r.2.2 == r0.2.2
+  let order0 := (vs.head?.map (·.1)).getD []
+  let swapped := fun (o : List Nat) =>
+    (as.flatMap fun a => as.filterMap fun b =>
+      if a.id < b.id && phaseOfA a == phaseOfA b &&
+         (decide (posOf order0 a.id < posOf order0 b.id) != decide (posOf o a.id < posOf o b.id))
+      then some (a, b) else none)
+  let hyp := vs.map fun v => (swapped v.1).all fun (a, b) => pairFree env a b
+  let sens := vs.map fun v => ((swapped v.1).filter fun (a, b) =>
+      sensitive a.kind b.kind && !pairFree env a b).map fun (a, b) => [a.id, b.id]
+  return Json.mkObj [
+    ("table_ok", toJson (tableOK Gen.rows)),
+    ("phases", toJson (as.map phaseOfA)),
+    ("footprints", Json.arr (as.map fun a => Json.mkObj [
+        ("id", toJson a.id),
+        ("reads", Json.arr ((env a.id).reads.map slotJson).toArray),
+        ("writes", Json.arr ((env a.id).writes.map slotJson).toArray),
+        ("disc_reads", toJson ((kfoot a.kind).discReads.map (·.name))),
+        ("creates", toJson ((kcreates a.kind).map (·.name)))]).toArray),
+    ("variants", Json.arr (results.map fun r => Json.mkObj [
+        ("out", Json.str (outName r.1)), ("exec", toJson r.2.1)]).toArray),
+    ("equal", toJson equal),
+    ("hyp", toJson hyp),
+    ("sensitive_swapped", toJson sens)]
